@@ -93,7 +93,7 @@ def world(seed, k):
 
 
 def materialise(w):
-    objs = {"acc": gen.acc_array(w["rows"]), "bits": np.array(w["bits"], dtype=int), "table": np.array(w["table"], dtype=int),
+    objs = {"acc": gen.acc_array(w["rows"], readonly_ok=False), "bits": np.array(w["bits"], dtype=int), "table": np.array(w["table"], dtype=int),
             "mask": np.array(w["mask"], dtype=int)}
     objs["lmap"] = dsw.accessor_to_latter_map(objs["acc"])
     objs["filter"] = gen.make_filter(w["cfg"])
